@@ -22,6 +22,16 @@ Tie to the code on every run:
                     after construction, and the caller's objects afterwards, are compared with the model
                     (`constructSections`, driver op `c08_construct_sections`; theorems C08_sections_shared,
                     C08_section_widths_own).
+  re-configuration  histories of 2..4 documents: the page / body / column-header / footnote / source objects of a
+                    document are those of the document before — the very object, the object after `obj.field = v`,
+                    `obj.model_copy(update=…)`, `obj.model_copy()`, `copy.deepcopy(obj)` — or new ones; or the document
+                    OBJECT is encoded again after assignments to its page.  Every width-bearing option is re-configured
+                    (RTFPage col_width and the options its default derives from; col_rel_width of RTFBody — none, one
+                    entry, one per column of a frame with another column count —, of RTFColumnHeader — own / inherited —,
+                    of RTFFootnote / RTFSource).  Every encoded document of a history is judged by the same oracle and
+                    compared with the same model as a single document, at the configuration its objects hold when it is
+                    encoded (`Model.WidthsHist.pageRun` / `widthsAtEncodes`, theorems C08_page_history,
+                    C08_page_history_rows; C08_page_keep_witness: what keeping the width on the object would do).
 Float caveat: rtflite computes in IEEE doubles, the model in exact rationals.  Boundaries whose exact value
 lies within 2^-30 twip of a rounding boundary are not compared strictly (either neighbour accepted) unless
 the float computation is verifiably exact; they are counted in the evidence (`float_boundary_*`).
@@ -41,6 +51,11 @@ RULE = ("unit: random width vectors (1..12 columns, ints / dyadic / decimal / ar
         "col_width in [2,12]); docs: tagged tables over header mode x page_by/subline_by removal x footnote/source "
         "x orientation/col_width x multi-section x reused configuration objects (by an earlier document; by several "
         "sections of one document: body objects over sections with fewer/more/equal column counts, header objects); "
+        "histories of 2-4 documents whose page / body / header / footnote / source OBJECTS are those of the document "
+        "before, handed on as they are, after attribute assignment, model_copy(update=...), model_copy(), deepcopy, or "
+        "re-made (RTFPage col_width / orientation / width / height / margin / nrow; col_rel_width of body, headers, "
+        "footnote, source; the document object encoded again after assignments to its page), every document judged at "
+        "the configuration its objects hold when it is encoded; "
         "non-trivial = a document with "
         ">= 2 columns displayed in some section and unequal relative widths or a removed column or several row kinds; "
         "distinct by (column counts, masks, header modes, width vectors, table width)")
@@ -58,11 +73,16 @@ MANIFEST = dict(
          "are monotone and positive, every row kind of a well-formed section ends at twip(W), headers with inherited "
          "widths have the data rows' boundary vector after column removal, widths do not depend on earlier documents "
          "built with the same configuration objects, nor on the other sections of the document that list the same body "
-         "object (each section's widths are resolved from its object and its own column count). Tied to the code on every run by unit correspondence on "
+         "object (each section's widths are resolved from its object and its own column count), nor on what a page "
+         "object was used for before it was re-configured (the width configured last is the one every row kind of the "
+         "next document ends at). Tied to the code on every run by unit correspondence on "
          "_col_widths and by whole documents whose observed \\cellx vectors are judged by the Lean-defined oracle "
          "checkRows and compared with the model's rows, and by comparing the widths "
-         "each section holds after construction with the model's.",
-    note="IEEE-754 arithmetic inside _col_widths is modelled by exact rationals over the exact float inputs; "
+         "each section holds after construction with the model's, and by histories of documents built from "
+         "re-used and re-configured component objects, each judged by the same oracle.",
+    note="a re-configured page object: once it exists col_width is a field of its own (assigning orientation / width "
+         "does not re-derive it); the expectation follows the field. "
+         "IEEE-754 arithmetic inside _col_widths is modelled by exact rationals over the exact float inputs; "
          "boundaries within 2^-30 twip of a rounding boundary are excluded from strict comparison and counted. "
          "pydantic, polars are parameters. The header-alignment clause holds only with "
          "fixes/header-widths-after-column-removal.patch (defect D9).",
@@ -493,9 +513,18 @@ def gen_shared_doc(rng, tier):
 # ------------------------------------------------------------------ observation level: expectation
 
 def table_width(page):
+    """RTFPage(**page).col_width as documented: the option, else the page width minus the side allowance"""
     if page.get("col_width") is not None:
         return page["col_width"]
+    if page.get("width") is not None:
+        return page["width"] - (2.5 if page.get("orientation") == "landscape" else 2.25)
     return 8.5 if page.get("orientation") == "landscape" else 6.25
+
+
+def case_W(case):
+    """the table width configured when the document is encoded: of a page object that was re-configured after its
+    construction (histories: `page_W`, tracked field by field), else of RTFPage(**page)"""
+    return case["page_W"] if case.get("page_W") is not None else table_width(case["page"])
 
 
 def section_headers_effective(case, si):
@@ -535,7 +564,7 @@ def expect_section(case, si):
         disp = [w for w, k in zip(uw, keep) if k]
     else:
         disp = list(uw)
-    W = table_width(case["page"])
+    W = case_W(case)
     fn, src = case.get("footnote"), case.get("source")
     return dict(ncol=ncol, keep=keep, userW=None if uw is None else [fs(x) for x in uw], headers=hs,
                 footW=[fs(x) for x in fn.get("col_rel_width", [1])] if fn and fn.get("as_table", True) else None,
@@ -551,6 +580,25 @@ def _mk_headers(rtf, hs):
 
 def build_doc(case):
     return build_doc_ex(case)[0]
+
+
+def _doc_kwargs(rtf, case, kw, frames_, bodies_, headers_):
+    """RTFDocument keyword arguments of a case: `kw` (page / footnote / source objects) + frames, bodies, headers"""
+    k = dict(kw)
+    if case["multi"]:
+        k["df"] = frames_
+        k["rtf_body"] = bodies_
+        fmt = case["header_format"]
+        if fmt == "nested":
+            k["rtf_column_header"] = [h if h is not None else [rtf.RTFColumnHeader()] for h in headers_]
+        elif fmt == "flat":
+            k["rtf_column_header"] = headers_[0] if headers_[0] is not None else [rtf.RTFColumnHeader()]
+    else:
+        k["df"] = frames_[0]
+        k["rtf_body"] = bodies_[0]
+        if headers_[0] is not None:
+            k["rtf_column_header"] = headers_[0]
+    return k
 
 
 def build_doc_ex(case):
@@ -580,21 +628,7 @@ def build_doc_ex(case):
         kw["rtf_source"] = rtf.RTFSource(**case["source"])
 
     def doc_kwargs(frames_, bodies_, headers_):
-        k = dict(kw)
-        if case["multi"]:
-            k["df"] = frames_
-            k["rtf_body"] = bodies_
-            fmt = case["header_format"]
-            if fmt == "nested":
-                k["rtf_column_header"] = [h if h is not None else [rtf.RTFColumnHeader()] for h in headers_]
-            elif fmt == "flat":
-                k["rtf_column_header"] = headers_[0] if headers_[0] is not None else [rtf.RTFColumnHeader()]
-        else:
-            k["df"] = frames_[0]
-            k["rtf_body"] = bodies_[0]
-            if headers_[0] is not None:
-                k["rtf_column_header"] = headers_[0]
-        return k
+        return _doc_kwargs(rtf, case, kw, frames_, bodies_, headers_)
 
     hist = case.get("history")
     if hist:
@@ -673,6 +707,14 @@ def _doc_worker(case):
             doc, caller_bodies = build_doc_ex(case)
     except Exception as e:  # noqa: BLE001
         return dict(status="construct-error", exc=docgen.classify_exc(e), msg=str(e)[:300])
+
+    return _observe(case, doc, caller_bodies)
+
+
+def _observe(case, doc, caller_bodies):
+    """encode `doc` (built for `case`), read it back: every table row with its section, kind and \\cellx vector"""
+    import contextlib
+    import io
 
     def wl(b):
         w = getattr(b, "col_rel_width", None)
@@ -896,7 +938,7 @@ def nontrivial_key(case, ob):
     if not ok:
         return None
     return ("d", tuple((len(s["keep"]), tuple(s["keep"]), s["hmode"], tuple(s["body"].get("col_rel_width") or ()))
-                       for s in secs), table_width(case["page"]), case["header_format"], bool(case.get("history")),
+                       for s in secs), case_W(case), case["header_format"], bool(case.get("history")),
             tuple((s.get("body_of"), s.get("headers_of")) for s in secs))
 
 
@@ -960,6 +1002,466 @@ CORPUS_SHARED = dict(   # one width-less body and one RTFColumnHeader() listed f
                    body_of=0, headers_of=0)])
 
 
+# ------------------------------------------------------------------ histories: RE-CONFIGURED configuration objects
+#
+# A history is a sequence of documents (steps).  The page / body / column-header / footnote / source objects of a step
+# are the objects of the step before, handed on by one of the ways a caller re-uses a configuration object:
+#   ["same"]            the very object, as it is
+#   ["assign", upd]     the very object after `obj.field = value` for every entry of upd
+#   ["copy", upd]       `obj.model_copy(update=upd)` (upd may be empty: `obj.model_copy()`)
+#   ["deepcopy", upd]   `copy.deepcopy(obj)`, then assignments
+#   ["fresh"]           a newly constructed object
+# or the step re-encodes the document OBJECT of the step before after assignments to its page (`redoc`).  Every step's
+# case dict carries the configuration its objects hold WHEN IT IS ENCODED (the constructor keywords of the first object
+# with every later update applied; `page_W` = the col_width the page object holds then), so the expectation and the
+# oracle of single documents apply to every step unchanged: C08 speaks of "the configured table width", whatever the
+# object was used for before.  Width-bearing options re-configured: RTFPage col_width / orientation / width / height /
+# margin / nrow (only col_width IS the table width once the object exists), RTFBody col_rel_width (none, one entry,
+# one per column of a frame with another column count), RTFColumnHeader col_rel_width (own / inherited),
+# RTFFootnote / RTFSource col_rel_width.
+
+PAGE_CARRY = ("same", "assign", "assign", "copy", "copy", "copy", "deepcopy", "fresh")
+
+
+def gen_page_update(rng, page):
+    upd = {}
+    if rng.random() < 0.7:
+        upd["col_width"] = gen_table_width(rng)
+    if rng.random() < 0.3:
+        upd["orientation"] = "portrait" if page.get("orientation") == "landscape" else "landscape"
+    if rng.random() < 0.2:
+        upd["width"] = round(rng.uniform(7, 14), 2)
+    if rng.random() < 0.1:
+        upd["height"] = round(rng.uniform(7, 14), 2)
+    if rng.random() < 0.1:
+        upd["margin"] = [round(rng.uniform(0.5, 2), 2) for _ in range(6)]
+    if rng.random() < 0.2:
+        upd["nrow"] = rng.randint(4, 12)
+    if not upd:
+        upd["col_width"] = gen_table_width(rng)
+    return upd
+
+
+def gen_fresh_page(rng):
+    page = {}
+    if rng.random() < 0.4:
+        page["orientation"] = "landscape"
+    if rng.random() < 0.5:
+        page["col_width"] = gen_table_width(rng)
+    if rng.random() < 0.3:
+        page["width"] = round(rng.uniform(7, 14), 2)
+    if rng.random() < 0.4:
+        page["nrow"] = rng.randint(4, 12)
+    return page
+
+
+def carry_op(rng, upd, kinds=("assign", "copy", "copy", "deepcopy")):
+    """how an object with the updates `upd` is obtained from the one of the step before"""
+    if not upd:
+        return [rng.choice(["same", "same", "copy", "deepcopy"]), {}]
+    return [rng.choice(kinds), upd]
+
+
+def gen_carried_section(rng, sec, owner, k):
+    """section `sec` of step k uses the body OBJECT of the same section of the step before, as it is or with another
+    col_rel_width (none / one entry / one per column of this step's frame, which has its own column count and key
+    positions whenever the widths leave that open) → (section, body op)"""
+    body = dict(owner["body"])
+    keys = list(dict.fromkeys((body.get("subline_by") or []) + (body.get("page_by") or [])))
+    uw = body.get("col_rel_width")
+    nrows = rng.randint(1, 7)
+    change = rng.random() < 0.6
+    wmode = owner["wmode"]
+    if change:
+        wmode = rng.choice(["none", "single", "full", "full", "full"])
+    open_shape = change or uw is None or len(uw) == 1
+    if open_shape:
+        pool = [n for n in [1, 2, 2, 3, 3, 4, 4, 5, 6, 7, 8, 10, 12] if n >= len(keys) + (1 if keys else 0)]
+        ncol = len(owner["cols"]) if rng.random() < 0.3 and len(owner["cols"]) in pool else rng.choice(pool)
+        key_pos = rng.sample(range(ncol), len(keys))
+    else:
+        ncol = len(owner["cols"])
+        key_pos = [owner["cols"].index(x) for x in keys]
+    cols = [f"S{sec}C{1000 * k + j}" for j in range(ncol)]
+    for name, j in zip(keys, key_pos):
+        cols[j] = name                               # the names the carried body refers to
+    upd = {}
+    if change:
+        if wmode == "none":
+            upd["col_rel_width"] = None
+        elif wmode == "single":
+            upd["col_rel_width"] = [gen_width(rng, rng.choice(["int", "dec1", "float"]))]
+        else:
+            upd["col_rel_width"] = gen_widths(rng, ncol)
+        body["col_rel_width"] = upd["col_rel_width"]
+        if body["col_rel_width"] is None:
+            del body["col_rel_width"]
+    keyvals = {}
+    for lvl, j in enumerate(key_pos):
+        keyvals[j] = docgen.run_keys(rng, nrows, [f"S{sec}KEY{lvl}{x}" for x in "abcd"], 1, 3)
+    rows = [[keyvals[j][i] if j in keyvals else f"s{sec}r{i}c{j}" for j in range(ncol)] for i in range(nrows)]
+    removed = removed_names(body)
+    keep = [c not in removed for c in cols]
+    hmode, headers = gen_headers(rng, sec, sum(keep))
+    return (dict(cols=cols, rows=rows, body=body, headers=headers, keep=keep, mode=owner["mode"], wmode=wmode,
+                 hmode=hmode), carry_op(rng, upd))
+
+
+def gen_carried_headers(rng, prev_headers, ndisp):
+    """the header OBJECTS of the step before, each as it is or with another col_rel_width (own widths, one per label;
+    none = inherited from the body, for a row with one label per displayed column) → (headers, ops)"""
+    headers, ops = [], []
+    for h in prev_headers:
+        h2 = dict(h)
+        text = h.get("text")
+        n = len(text) if text is not None else ndisp
+        upd = {}
+        r = rng.random()
+        if r < 0.4:
+            upd["col_rel_width"] = gen_widths(rng, n)
+        elif r < 0.6 and h.get("col_rel_width") is not None and n == ndisp:
+            upd["col_rel_width"] = None
+        if "col_rel_width" in upd:
+            h2["col_rel_width"] = upd["col_rel_width"]
+            if h2["col_rel_width"] is None:
+                del h2["col_rel_width"]
+        elif (h2.get("col_rel_width") is None and text is not None and n != ndisp) or \
+                (h2.get("col_rel_width") is not None and len(h2["col_rel_width"]) != n):
+            # a row that cannot inherit from this step's body, or whose labels are this step's column names (another
+            # number of them than the widths it was given for): own widths, one per label
+            upd["col_rel_width"] = gen_widths(rng, n)
+            h2["col_rel_width"] = upd["col_rel_width"]
+        headers.append(h2)
+        ops.append(carry_op(rng, upd))
+    return headers, ops
+
+
+def gen_carried_component(rng, comp):
+    comp2 = dict(comp)
+    upd = {}
+    if rng.random() < 0.5:
+        upd["col_rel_width"] = gen_widths(rng, rng.randint(1, 3))
+        comp2["col_rel_width"] = upd["col_rel_width"]
+    return comp2, carry_op(rng, upd)
+
+
+def gen_next_step(rng, k, prev, tier):
+    import copy
+
+    if prev.get("encode", True) and rng.random() < 0.15:
+        # the document OBJECT of the step before is encoded again after assignments to its page object
+        step = copy.deepcopy(prev)
+        upd = gen_page_update(rng, prev["page"])
+        step["page"] = {**prev["page"], **upd}
+        step["page_W"] = upd.get("col_width", prev["page_W"])
+        step["carry"] = dict(page=["assign", upd])
+        step["redoc"], step["encode"] = True, True
+        return step
+    multi = prev["multi"] if rng.random() < 0.7 else rng.random() < 0.3
+    nsec = rng.choice([2, 2, 3]) if multi else 1
+    sections, bops, hops = [], [], []
+    for i in range(nsec):
+        if i < len(prev["sections"]) and rng.random() < 0.75:
+            sec, bop = gen_carried_section(rng, i, prev["sections"][i], k)
+            ph = prev["sections"][i]["headers"]
+            hop = None
+            if ph != "default" and ph and rng.random() < 0.6:
+                sec["headers"], hop = gen_carried_headers(rng, ph, sum(sec["keep"]))
+                sec["hmode"] = prev["sections"][i]["hmode"]
+        else:
+            sec, bop, hop = gen_section(rng, i, tier), ["fresh"], None
+        sections.append(sec)
+        bops.append(bop)
+        hops.append(hop)
+    # page
+    pk = rng.choice(PAGE_CARRY)
+    if pk == "fresh":
+        page, pop = gen_fresh_page(rng), ["fresh"]
+        W = table_width(page)
+    elif pk == "same":
+        page, pop, W = dict(prev["page"]), ["same", {}], prev["page_W"]
+    else:
+        upd = gen_page_update(rng, prev["page"]) if rng.random() < 0.85 else {}
+        page, pop = {**prev["page"], **upd}, [pk, upd]
+        W = upd.get("col_width", prev["page_W"])
+    comps, cops = {}, {}
+    for name, fresh in (("footnote", lambda: dict(text="FOOTNOTE-TXT", **({"as_table": False} if rng.random() < 0.2 else {}))),
+                        ("source", lambda: dict(text="SOURCE-TXT", as_table=rng.random() < 0.7))):
+        if prev.get(name) is not None and rng.random() < 0.6:
+            comps[name], cops[name] = gen_carried_component(rng, prev[name])
+        elif rng.random() < 0.6:
+            comps[name], cops[name] = fresh(), ["fresh"]
+            if rng.random() < 0.3:
+                comps[name]["col_rel_width"] = gen_widths(rng, rng.randint(1, 3))
+        else:
+            comps[name], cops[name] = None, None
+    return dict(level="doc", multi=multi, sections=sections, page=page, page_W=W, footnote=comps["footnote"],
+                source=comps["source"], header_format=rng.choice(["nested", "nested", "flat", "omitted"]) if multi else "flat",
+                history=None, encode=rng.random() < 0.88, redoc=False,
+                carry=dict(page=pop, footnote=cops["footnote"], source=cops["source"], bodies=bops, headers=hops))
+
+
+def gen_chain(rng, tier):
+    d0 = gen_doc(rng, tier)
+    d0["history"] = None
+    if rng.random() < 0.3:
+        d0["page"] = gen_fresh_page(rng)
+    d0["page_W"] = table_width(d0["page"])
+    d0.update(encode=rng.random() < 0.9, redoc=False, carry=None)
+    steps = [d0]
+    for k in range(1, rng.choice([2, 2, 3, 3, 4])):
+        steps.append(gen_next_step(rng, k, steps[-1], tier))
+    steps[-1]["encode"] = True
+    return dict(level="hist", steps=steps)
+
+
+def _carry(op, prev, make):
+    import copy
+
+    if op is None or op[0] == "fresh" or prev is None:
+        return make()
+    kind, upd = op[0], (op[1] if len(op) > 1 else {})
+    if kind == "same":
+        return prev
+    if kind == "copy":
+        return prev.model_copy(update=dict(upd)) if upd else prev.model_copy()
+    obj = copy.deepcopy(prev) if kind == "deepcopy" else prev
+    for f, v in upd.items():
+        setattr(obj, f, v)
+    return obj
+
+
+def _chain_worker(chain):
+    """every step: the objects (carried as the step says), the document, its rows.  One process, in order."""
+    import contextlib
+    import io
+
+    import rtflite as rtf
+
+    out = []
+    prev = dict(page=None, footnote=None, source=None, bodies=[], headers=[], doc=None, caller_bodies=None)
+    for step in chain["steps"]:
+        c = step.get("carry") or {}
+        try:
+            with contextlib.redirect_stdout(io.StringIO()):
+                if step.get("redoc") and prev["doc"] is not None:
+                    _carry(c["page"], prev["doc"].rtf_page, None)
+                    doc, cur = prev["doc"], prev
+                else:
+                    cur = dict(page=_carry(c.get("page"), prev["page"], lambda: rtf.RTFPage(**step["page"])))
+                    for name, cls in (("footnote", rtf.RTFFootnote), ("source", rtf.RTFSource)):
+                        spec = step.get(name)
+                        cur[name] = None if spec is None else _carry(c.get(name), prev[name],
+                                                                     lambda cls=cls, spec=spec: cls(**spec))
+                    bops, hops = c.get("bodies") or [], c.get("headers") or []
+                    cur["bodies"], cur["headers"] = [], []
+                    for si, s in enumerate(step["sections"]):
+                        pb = prev["bodies"][si] if si < len(prev["bodies"]) else None
+                        cur["bodies"].append(_carry(bops[si] if si < len(bops) else None, pb,
+                                                    lambda s=s: rtf.RTFBody(**s["body"])))
+                        hop = hops[si] if si < len(hops) else None
+                        ph = prev["headers"][si] if si < len(prev["headers"]) else None
+                        if s["headers"] == "default":
+                            cur["headers"].append(None)
+                        elif hop is None or ph is None:
+                            cur["headers"].append(_mk_headers(rtf, s["headers"]))
+                        else:
+                            cur["headers"].append([_carry(o, ph[j] if j < len(ph) else None,
+                                                          lambda h=h: rtf.RTFColumnHeader(**h))
+                                                   for j, (o, h) in enumerate(zip(hop, s["headers"]))])
+                    frames = [docgen.make_frame(dict(cols=s["cols"], rows=s["rows"])) for s in step["sections"]]
+                    kw = dict(rtf_page=cur["page"])
+                    if cur["footnote"] is not None:
+                        kw["rtf_footnote"] = cur["footnote"]
+                    if cur["source"] is not None:
+                        kw["rtf_source"] = cur["source"]
+                    cur["doc"] = None
+                    cur["caller_bodies"] = cur["bodies"]
+                    prev = {**cur, "doc": None}       # the objects exist whether or not the document can be built
+                    doc = rtf.RTFDocument(**_doc_kwargs(rtf, step, kw, frames, cur["bodies"], cur["headers"]))
+                    cur["doc"] = doc
+                    prev = cur
+        except Exception as e:  # noqa: BLE001
+            out.append(dict(status="construct-error", exc=docgen.classify_exc(e), msg=str(e)[:300]))
+            continue
+        if not step.get("encode", True):
+            out.append(dict(status="not-encoded"))
+            continue
+        ob = _observe(step, doc, prev["caller_bodies"])
+        pw = getattr(doc.rtf_page, "col_width", None)
+        ob["page_col_width"] = None if pw is None else fs(pw)
+        out.append(ob)
+    return out
+
+
+class _StepRes:
+    """records what the judge of single documents says about step k as a finding about the history up to that step"""
+
+    def __init__(self, res, chain, k):
+        self.res, self.k = res, k
+        self.case = dict(level="hist", steps=chain["steps"][:k + 1])
+
+    def count(self, key, n=1):
+        self.res.count(key, n)
+
+    def _why(self, why):
+        st = self.case["steps"][self.k]
+        how = "the document object of the step before, encoded again" if st.get("redoc") else \
+              f"objects handed on as {st.get('carry')}"
+        return (f"history of {self.k + 1} documents, last one (table width configured when it is encoded: "
+                f"{st.get('page_W')} in; {how}): {why}") if self.k else why
+
+    def fail(self, case, why):
+        self.res.fail(self.case, self._why(why))
+
+    def disagree(self, case, why):
+        self.res.disagree(self.case, self._why(why))
+
+
+def chain_labels(chain, obs):
+    out = [f"hist_steps:{len(chain['steps'])}"]
+    used_page = False          # has the page object at hand been used by an encode?
+    for k, (st, ob) in enumerate(zip(chain["steps"], obs)):
+        c = st.get("carry") or {}
+        if k:
+            if st.get("redoc"):
+                out.append("hist_redoc")
+            pop = c.get("page") or ["fresh"]
+            out.append(f"hist_page:{pop[0]}" + ("" if len(pop) < 2 or pop[1] or pop[0] in ("same", "fresh") else ":no_update"))
+            for f in sorted(pop[1]) if len(pop) > 1 else []:
+                out.append(f"hist_page_field:{pop[0]}:{f}")
+            if pop[0] == "fresh":
+                used_page = False
+            rows = ob.get("rows") or []
+            if used_page and pop[0] != "fresh" and len(pop) > 1 and "col_width" in pop[1]:
+                out.append("hist_used_page_new_col_width")
+                for kind in sorted({r["kind"] for r in rows}):
+                    out.append("hist_used_page_new_col_width_row:" + kind)
+            for op in c.get("bodies") or []:
+                out.append("hist_body:" + op[0] + (":col_rel_width" if len(op) > 1 and op[1] else ""))
+            for hop in c.get("headers") or []:
+                for op in hop or []:
+                    out.append("hist_header:" + op[0] + (":col_rel_width" if len(op) > 1 and op[1] else ""))
+            for name in ("footnote", "source"):
+                op = c.get(name)
+                if op:
+                    out.append(f"hist_{name}:" + op[0] + (":col_rel_width" if len(op) > 1 and op[1] else ""))
+        out.append("hist_step_status:" + ob["status"])
+        if ob["status"] == "ok":
+            used_page = True
+    return out
+
+
+def run_chains(res, tier):
+    n = 170 if tier == "quick" else 2200
+    chains = [CORPUS_HIST_PAGE] + [gen_chain(sub_rng(res.seed, "c08hist", k), tier) for k in range(n)]
+    obs = common.pool_map(_chain_worker, chains, chunksize=2)
+    all_reqs, spans = [], []
+    for ch, ob in zip(chains, obs):
+        for k, (st, o) in enumerate(zip(ch["steps"], ob)):
+            if o["status"] == "not-encoded":
+                spans.append(None)
+                continue
+            exps, reqs = doc_requests(st, o)
+            spans.append((len(all_reqs), len(reqs), exps))
+            all_reqs += reqs
+    outs = common.driver_batch(all_reqs + [rq for ch in chains for rq, _ in page_history_requests(ch)])
+    page_outs = iter(outs[len(all_reqs):])
+    it = iter(spans)
+    for ch, ob in zip(chains, obs):
+        # the model of the page object over the history (`pageRun`, `widthsAtEncodes`; C08_page_history): the table
+        # width configured at every encode is the one the steps are judged at, and the one the real object holds
+        for rq, ks in page_history_requests(ch):
+            d = next(page_outs)
+            got = [parse_frac(x) for x in d["at_encode"]]
+            for kk, w in zip(ks, got):
+                res.count("hist_page_model_checked")
+                if w != frac(ch["steps"][kk]["page_W"]) or len(got) != len(ks):
+                    raise common.MachineryError(f"C08 history: the page model configures {float(w)} at step {kk}, the "
+                                                f"generator tracked {ch['steps'][kk]['page_W']}")
+        keys = []
+        for k, (st, o) in enumerate(zip(ch["steps"], ob)):
+            sp = next(it)
+            if sp is None:
+                continue
+            a, m, exps = sp
+            sr = _StepRes(res, ch, k)
+            keys.append(nontrivial_key(st, o))
+            if o["status"] == "ok":
+                for r in o["rows"]:
+                    res.count("hist_row_kind:" + r["kind"])
+                if o.get("page_col_width") != fs(st["page_W"]):
+                    sr.disagree(st, f"the page object holds col_width {o.get('page_col_width')} when the document is "
+                                    f"encoded; configured (constructor keywords and later updates): {st['page_W']}")
+            res.corr_checked += 1
+            judge_doc(sr, st, o, exps, outs[a:a + m])
+        res.count("hist")
+        for lab in chain_labels(ch, ob):
+            res.count(lab)
+        nt = None
+        if len([x for x in keys if x is not None]) >= 1 and len(keys) >= 2:
+            nt = ("h", tuple(keys), tuple(json_key(st.get("carry")) for st in ch["steps"]))
+        res.case(ch, nt)
+
+
+def page_history_requests(chain):
+    """driver requests `c08_page_history`, one per page OBJECT lineage of the history (a freshly constructed page starts
+    a new one) → [(request, [step index of every encode of the lineage])]"""
+    out, cur, ks = [], None, []
+    for k, st in enumerate(chain["steps"]):
+        pop = (st.get("carry") or {}).get("page") or ["fresh"]
+        if k == 0 or pop[0] == "fresh":
+            if cur is not None:
+                out.append((cur, ks))
+            cur, ks = dict(op="c08_page_history", w0=fs(table_width(st["page"])), ops=[]), []
+        elif pop[0] != "same":
+            upd = pop[1] if len(pop) > 1 else {}
+            if "col_width" in upd:
+                cur["ops"].append(["set", fs(upd["col_width"])])
+            if not upd or any(f != "col_width" for f in upd):
+                cur["ops"].append(["other"])
+        if st.get("encode", True):
+            cur["ops"].append(["encode"])
+            ks.append(k)
+    if cur is not None:
+        out.append((cur, ks))
+    return out
+
+
+def json_key(v):
+    import json
+
+    return json.dumps(v, sort_keys=True, default=str)
+
+
+CORPUS_HIST_PAGE = dict(level="hist", steps=[
+    # a landscape page used for a page_by listing, then derived into a wider one (model_copy(update=…)), then narrowed
+    # by assignment, for the next listings: group rows, header, data and footnote rows end at the width configured then
+    dict(level="doc", multi=False, page=dict(orientation="landscape"), page_W=8.5, footnote=dict(text="FOOTNOTE-TXT"),
+         source=None, header_format="flat", history=None, encode=True, redoc=False, carry=None,
+         sections=[dict(cols=["S0C0", "S0C1", "S0C2"],
+                        rows=[["S0KEY0a", "s0r0c1", "s0r0c2"], ["S0KEY0a", "s0r1c1", "s0r1c2"], ["S0KEY0b", "s0r2c1", "s0r2c2"]],
+                        body=dict(page_by=["S0C0"], col_rel_width=[1, 2, 1]), headers=[dict(text=["S0H0x0", "S0H0x1"])],
+                        keep=[False, True, True], mode="page_by", wmode="full", hmode="explicit_nowidth")]),
+    dict(level="doc", multi=False, page=dict(orientation="landscape", col_width=9.5), page_W=9.5,
+         footnote=dict(text="FOOTNOTE-TXT"), source=None, header_format="flat", history=None, encode=True, redoc=False,
+         carry=dict(page=["copy", dict(col_width=9.5)], footnote=["same", {}], source=None, bodies=[["same", {}]],
+                    headers=[[["same", {}]]]),
+         sections=[dict(cols=["S0C0", "S0C1", "S0C2"],
+                        rows=[["S0KEY0a", "s0r0c1", "s0r0c2"], ["S0KEY0b", "s0r1c1", "s0r1c2"]],
+                        body=dict(page_by=["S0C0"], col_rel_width=[1, 2, 1]), headers=[dict(text=["S0H0x0", "S0H0x1"])],
+                        keep=[False, True, True], mode="page_by", wmode="full", hmode="explicit_nowidth")]),
+    dict(level="doc", multi=False, page=dict(orientation="landscape", col_width=7.0), page_W=7.0,
+         footnote=dict(text="FOOTNOTE-TXT"), source=None, header_format="flat", history=None, encode=True, redoc=False,
+         carry=dict(page=["assign", dict(col_width=7.0)], footnote=["same", {}], source=None, bodies=[["same", {}]],
+                    headers=[[["same", {}]]]),
+         sections=[dict(cols=["S0C0", "S0C1", "S0C2"],
+                        rows=[["S0KEY0a", "s0r0c1", "s0r0c2"], ["S0KEY0b", "s0r1c1", "s0r1c2"]],
+                        body=dict(page_by=["S0C0"], col_rel_width=[1, 2, 1]), headers=[dict(text=["S0H0x0", "S0H0x1"])],
+                        keep=[False, True, True], mode="page_by", wmode="full", hmode="explicit_nowidth")]),
+])
+
+
 def run_docs(res, tier):
     ndocs = 500 if tier == "quick" else 6000
     cases = [CORPUS_D9, CORPUS_HISTORY]
@@ -1008,6 +1510,7 @@ def run(res: common.Result, build) -> int:
     rng = sub_rng(res.seed, "c08")
     run_unit(res, rng, res.tier)
     run_docs(res, res.tier)
+    run_chains(res, res.tier)
     res.extra["float_boundary"] = {k: v for k, v in res.distribution.items() if k.startswith("float_boundary")}
     from .. import crosscorr
 
@@ -1024,6 +1527,9 @@ def run(res: common.Result, build) -> int:
                     "several sections of a document: every section's widths come from its own column count, the object "
                     "is not written, every row kind of every such section ends at twip W; C08_sections_memo_witness: "
                     "resolving once per distinct object would not). "
+                    "C08_page_history / C08_page_history_rows (a page object that was used, written, copy-updated: every "
+                    "row kind of the next document ends at twip of the width configured last; C08_page_keep_witness: an "
+                    "encoder that keeps the width on the object would not). "
                     "C08_unrepaired_header_witness / C08_history_old_witness record what the code did before the "
                     "repairs (D9, and the write-back removed in 6e822b0).")
 
@@ -1050,6 +1556,26 @@ def replay(payload) -> int:
         print("model twips         :", r.get("twips"))
         print("violated clauses    :", r.get("viol"))
         judge_unit(tmp, case, o, r)
+    elif case.get("level") == "hist":
+        obs = _chain_worker(case)
+        for k, (st, o) in enumerate(zip(case["steps"], obs)):
+            print(f"document {k}: objects handed on as {st.get('carry')}"
+                  f"{' (the document object of the step before, encoded again)' if st.get('redoc') else ''}; table width "
+                  f"configured when it is encoded: {st['page_W']} in = {round(Fraction(st['page_W']) * 1440)} twips")
+            if o["status"] == "not-encoded":
+                print("  constructed, not encoded")
+                continue
+            exps, reqs = doc_requests(st, o)
+            drvs = common.driver_batch(reqs)
+            if o["status"] == "ok":
+                print(f"  page object holds col_width {o.get('page_col_width')}")
+                for r in o["rows"]:
+                    print(f"  section {r['sec']} {r['kind']:<12} {r['text0']:<14} cellx {r['cellx']}")
+            else:
+                print("  observation:", o)
+            for si, d in enumerate(drvs[:len(exps)]):
+                print(f"  section {si}: violated clauses {d.get('viol')}")
+            judge_doc(_StepRes(tmp, case, k), st, o, exps, drvs)
     else:
         o = _doc_worker(case)
         exps, reqs = doc_requests(case, o)
